@@ -26,8 +26,8 @@ META = {
     "id": "C19",
     "level": "proof",
     "technique": "Coq theorems (unbounded, closed) about an executable model of the fixed-point field codec, the g96 / extended-xyz / lammpstrj line formats, velocity reversal, frame extraction, swap_integer, the TRR header/data decoder, and the mdp / CP2K / LAMMPS template editors + lock-step of the extracted model against the real functions on generated files + the property's statement evaluated on the implementation",
-    "text": "Unbounded theorems: float('{:w.df}'.format(x)) is x rounded half-even to d decimals (error <= half a unit of the last decimal) for every width; the field has the format width iff width_guard, which is a bound on the magnitude (g96: -1e4 < x < 1e5); g96 atom lines (24-character label + 3 fields, read by slicing) and box lines, xyz atom lines and Box: headers round-trip; the guard is necessary for g96 (witness) and unnecessary for xyz; the lammpstrj reader returns the rows of frame k sorted by id whatever order they were written in; reversing velocities changes the velocity signs only and printing -x parses to -round(x); frame k of a multi-frame xyz / lammpstrj / TRR file is frame k; swap_integer is byte reversal of the low 32 bits and an involution on them; TRR header and frame decode(encode) = id for both byte orders and both precisions, precision detection; mdp editing replaces exactly the requested keys, appends the missing ones once, keeps every other line byte-identical, reads back the requested values and is idempotent on the whole text; CP2K data-line update exact + idempotent, a section created from a dict is a fixed point, tree update touches only the target node (same-named siblings untouched, path dictionary unchanged) and is idempotent, and the printed text reads back as the same forest (so comparing trees is comparing files); LAMMPS variable substitution exact, output free of requested variables, second application unchanged with all variables reported missing. Format constants (widths, precisions, slice positions, TRR magic/version/header layout, swap masks) are regenerated from /repo's source on every run and pinned by C19_format_contract.",
-    "note": "Trusted: Coq kernel (all theorems closed under the global context); extraction (ExtrOcamlBasic) + ocaml/c19_driver.ml; this harness (generators, file skeletons, hex encoding, struct packing of TRR test files, IEEE decoding of the model's byte groups, an independent CP2K tree parser used to compare outputs modulo sibling order). Not proved but checked on every generated value: Python's format()/float() correct rounding (model works on the exact rational of the float; float(s) must equal the double nearest to the model's decimal). numpy astype(str)/genfromtxt tokens are opaque shortest round-trip decimals (lammpstrj theorem is therefore `_partial`: row selection + canonical id sort only). LAMMPS str.replace is modelled on tokens (generated variables are never substrings of other tokens or values). LAMMPS reader needs >= 2 atoms (genfromtxt returns a 1-D array for one row): outside the claim, as in DESIGN. CP2K: at most two sections may share a title path (Python's set order decides which of three keeps the plain key); targets are upper case. The model is that of the code repaired by proposed_fixes/C19_modify_input_newline.diff, C19_cp2k_dict_data.diff and C19_lammps_repeated_variable.diff; on a tree without these repairs the oracle reports the concrete failing inputs.",
+    "text": "Unbounded theorems: float('{:w.df}'.format(x)) is x rounded half-even to d decimals (error <= half a unit of the last decimal) for every width; the field has the format width iff width_guard, which is a bound on the magnitude (g96: -1e4 < x < 1e5); g96 atom lines (24-character label + 3 fields, read by slicing) and box lines, xyz atom lines and Box: headers round-trip; the guard is necessary for g96 (witness) and unnecessary for xyz; the lammpstrj reader returns the rows of frame k sorted by id whatever order they were written in; reversing velocities changes the velocity signs only and printing -x parses to -round(x); frame k of a multi-frame xyz / lammpstrj / TRR file is frame k; swap_integer is byte reversal of the low 32 bits and an involution on them; TRR header and frame decode(encode) = id for both byte orders and both precisions, precision detection; mdp editing replaces exactly the requested keys, appends the missing ones once, keeps every other line byte-identical, reads back the requested values and is idempotent on the whole text - for every requested value, the ones that are falsy in Python included (the model is over strings: the requested text is str(value), so 0, 0.0, '', None, False and the strings '0', '0.0', ' ' are values like any other; generated for keys present in and absent from the template, alone and mixed with non-zero values, and as the engine's own requests nstvout = 0, nstfout = 0, nsteps = 0, define = ''); CP2K data-line update exact + idempotent, a section created from a dict is a fixed point, tree update touches only the target node (same-named siblings untouched, path dictionary unchanged) and is idempotent, and the printed text reads back as the same forest (so comparing trees is comparing files); LAMMPS variable substitution exact, output free of requested variables, second application unchanged with all variables reported missing. Format constants (widths, precisions, slice positions, TRR magic/version/header layout, swap masks) are regenerated from /repo's source on every run and pinned by C19_format_contract.",
+    "note": "Trusted: Coq kernel (all theorems closed under the global context); extraction (ExtrOcamlBasic) + ocaml/c19_driver.ml; this harness (generators, file skeletons, hex encoding, struct packing of TRR test files, IEEE decoding of the model's byte groups, an independent CP2K tree parser used to compare outputs modulo sibling order). Not proved but checked on every generated value: Python's format()/float() correct rounding (model works on the exact rational of the float; float(s) must equal the double nearest to the model's decimal). numpy astype(str)/genfromtxt tokens are opaque shortest round-trip decimals (lammpstrj theorem is therefore `_partial`: row selection + canonical id sort only). LAMMPS str.replace is modelled on tokens (generated variables are never substrings of other tokens or values). LAMMPS reader needs >= 2 atoms (genfromtxt returns a 1-D array for one row): outside the claim, as in DESIGN. Requested values of the template editors are passed to the model as str(value) (what the editors write); for CP2K only None means 'keyword alone', 0 / 0.0 / '' / False are values, and CP2K data lines are compared stripped in the tree comparison ('KEY ' is what an empty value prints). CP2K: at most two sections may share a title path (Python's set order decides which of three keeps the plain key); targets are upper case. The model is that of the code repaired by proposed_fixes/C19_modify_input_newline.diff, C19_cp2k_dict_data.diff and C19_lammps_repeated_variable.diff; on a tree without these repairs the oracle reports the concrete failing inputs.",
     "design_ref": "4/C19",
 }
 LEVEL = "proof"
@@ -851,6 +851,12 @@ def enc_pairs(pairs):
     return ",".join(f"{hx(k)}:{'N' if v is None else hx(str(v))}" for k, v in pairs) if pairs else "-"
 
 
+def enc_pairs_str(pairs):
+    """mdp settings: the editor writes str(value) whatever the value is (0, 0.0, "", None, False included)"""
+    pairs = list(pairs)
+    return ",".join(f"{hx(k)}:{hx(str(v))}" for k, v in pairs) if pairs else "-"
+
+
 def mdp_key(line):
     return line.split("=", 1)[0].strip() if "=" in line.rstrip("\n") else None
 
@@ -868,7 +874,7 @@ def case_mdp(spec, tmp):
     res2 = rfile(out2)
     before = EngineBase._read_input_settings(src)
     after = EngineBase._read_input_settings(out)
-    c.ask1(f"mdp {enc_pairs(pairs)} {hx(text)}", hx(res), "_modify_input output")
+    c.ask1(f"mdp {enc_pairs_str(pairs)} {hx(text)}", hx(res), "_modify_input output")
     c.ask([f"mdpread {hx(res)}"], lambda a: None if dict(tuple(unhx(x) for x in p.split(":")) for p in ([] if a[0] == "-" else a[0].split(","))) == after
           else f"_read_input_settings: model {a[0]} != implementation {after}")
     # ---- the statement, evaluated on the implementation
@@ -900,12 +906,21 @@ def case_mdp(spec, tmp):
     if res2 != res:
         c.fail(f"second application changes the file: {res!r} -> {res2!r}")
     c.tags.append("mdp_missing_no_newline" if (missing and text and not text.endswith("\n")) else "mdp_other")
+    for k, v in pairs:
+        if not v:       # a requested value that is falsy in Python (0, 0.0, "", None, False) is a requested value
+            c.tags.append("mdp_falsy_value_key_" + ("present" if k in present else "absent"))
+        elif str(v).strip() in ("0", "0.0"):
+            c.tags.append("mdp_zero_string_key_" + ("present" if k in present else "absent"))
     c.sample = {"mdp_in": text[:200], "settings": pairs, "mdp_out": res[:200]}
     return c
 
 
 MDP_LINES = ["a = 1\n", "ab = 2\n", "a=3\n", "; a = 4\n", "x\n", "\n", " a  =  5 \n", "c = d = e\n"]
 MDP_KEYS = ["a", "ab", "c"]
+# requested values that are falsy in Python, and their truthy string twins: all of them are requested values
+# (the engine itself asks for nstvout = 0, nstfout = 0, nsteps = 0); the editor writes str(value)
+MDP_FALSY = [0, 0.0, "", None, False]
+MDP_ZEROISH = ["0", "0.0", " "]
 
 
 def gen_mdp_random(rng):
@@ -914,13 +929,13 @@ def gen_mdp_random(rng):
     for _ in range(rng.randrange(0, 12)):
         k = rng.choice(keys)
         form = rng.randrange(8)
-        v = rng.choice(["1", "0.002", "md", "300 300", "yes", "", "a=b"])
+        v = rng.choice(["1", "0.002", "md", "300 300", "yes", "", "a=b", "0", "10"])
         lines.append([f"{k} = {v}\n", f"{k}={v}\n", f"  {k}\t=   {v}  \n", f"; {k} = {v}\n", f"{k} = {v} ; comment = x\n", "\n", f"{k}\n", f"include {k}\n"][form])
     text = "".join(lines)
     if text and rng.random() < 0.4:
         text = text[:-1]
     ks = rng.sample(keys, rng.randrange(0, 5))
-    return {"text": text, "settings": [[k, rng.choice(["5", "0.5", "sd", "1 2 3", 7, 0.25])] for k in ks]}
+    return {"text": text, "settings": [[k, rng.choice(["5", "0.5", "sd", "1 2 3", 7, 0.25] + MDP_FALSY + MDP_ZEROISH[:2])] for k in ks]}
 
 
 # --------------------------------------------------------------------------- G. CP2K
@@ -996,7 +1011,8 @@ def parse_cp2k(text):
 
 
 def canon(node):
-    return (node[0], tuple(node[1]), tuple(node[2]), tuple(sorted(canon(k) for k in node[3])))
+    # data lines are compared stripped (the reader strips them; "KEY " is what an empty value prints)
+    return (node[0], tuple(node[1]), tuple(x.strip() for x in node[2]), tuple(sorted(canon(k) for k in node[3])))
 
 
 def canon_forest(roots):
@@ -1199,7 +1215,7 @@ def gen_cp2k_tree(rng):
         if any(u[0] == tgt for u in updates):
             continue
         kind = rng.random()
-        data = [[k, rng.choice(["5", "0.25", "a b", 7, None])] for k in rng.sample(CP2K_KEYS[:8], rng.randrange(0, 4))]
+        data = [[k, rng.choice(["5", "0.25", "a b", 7, None, 0, "0", 0.0, ""])] for k in rng.sample(CP2K_KEYS[:8], rng.randrange(0, 4))]
         if kind < 0.6:
             updates.append([tgt, [], False, True, data, []])
         elif kind < 0.8:
@@ -1291,7 +1307,7 @@ def gen_lammps_in(rng, small=None):
     if text and rng.random() < 0.3:
         text = text[:-1]
     ks = rng.sample(LMP_VARS, rng.randrange(0, 4))
-    return {"text": text, "settings": [[k, rng.choice(["0.5", 100, "run_7", "300.0", "conf.lammpstrj"])] for k in ks]}
+    return {"text": text, "settings": [[k, rng.choice(["0.5", 100, "run_7", "300.0", "conf.lammpstrj", 0, "0", 0.0, ""])] for k in ks]}
 
 
 # --------------------------------------------------------------------------- driver
@@ -1377,6 +1393,29 @@ def generate(rng, tier):
         for r in range(len(MDP_KEYS) + 1):
             for ks in itertools.combinations(MDP_KEYS, r):
                 cases.append(("mdp", {"text": t, "settings": [[k, "9"] for k in ks]}))
+    # ... and the same templates x every non-empty subset of keys with a falsy requested value (0, 0.0, "", None,
+    # False: `if value:` is not `if key in settings`) and with the truthy strings "0" / "0.0" / " "; all keys the
+    # same value for templates of <= 1 line and (thorough) 2 lines, mixed with a non-zero value for 2 lines
+    one_line = [t for t in tmpls if len(t.splitlines()) <= 1]
+    two_line = [t for t in tmpls if len(t.splitlines()) == 2]
+    for t in one_line + ([] if q else two_line):
+        for r in range(1, len(MDP_KEYS) + 1):
+            for ks in itertools.combinations(MDP_KEYS, r):
+                for v in MDP_FALSY + MDP_ZEROISH:
+                    cases.append(("mdp", {"text": t, "settings": [[k, v] for k in ks]}))
+    for j, t in enumerate(two_line):
+        for ks in itertools.combinations(MDP_KEYS, 2):
+            for i, v in enumerate(MDP_FALSY + MDP_ZEROISH[:1]):
+                if q and (i + j) % 3:
+                    continue
+                cases.append(("mdp", {"text": t, "settings": [[ks[0], v], [ks[1], "9"]]}))
+                cases.append(("mdp", {"text": t, "settings": [[ks[0], "9"], [ks[1], v]]}))
+    # the engine's own requests on a grompp-like template (write_vel/write_force = False, zero-step genvel input)
+    grompp = "integrator = md\ndt = 0.002\nnsteps = 10000\nnstxout = 10\nnstvout = 10\nnstfout = 5\ndefine = -DFLEXIBLE\ngen_vel = no\n"
+    for st in ([["nstxout", 5], ["nstvout", 0], ["nstfout", 0], ["nsteps", 200]], [["nsteps", 0], ["gen_vel", "yes"], ["gen_seed", 0]],
+               [["define", ""]], [["nstcalcenergy", 0], ["nstenergy", 0.0], ["dt", 0.0]], [["gen_vel", False], ["define", None]]):
+        cases.append(("mdp", {"text": grompp, "settings": st}))
+        cases.append(("mdp", {"text": grompp[:-1], "settings": st}))
     for _ in range(300 if q else 12000):
         cases.append(("mdp", gen_mdp_random(rng)))
     # H. CP2K data lines: all sections of <= 2 (quick) / 3 lines over a small alphabet x all dicts over three keys
@@ -1397,6 +1436,13 @@ def generate(rng, tier):
             cases.append(("cp2k_data", {"lines": sec, "data": dct, "new": False}))
     for dct in dicts:
         cases.append(("cp2k_data", {"lines": [], "data": dct, "new": True}))
+    # falsy values that are not None are values (0, 0.0, "", False) - only None means "keyword alone"
+    for sec in [s_ for s_ in secs if len(s_) <= 1] + [["A 1", "C  3"], ["AB 2", "A"]]:
+        for ks in (["A"], ["C"], ["A", "AB"], ["C", "A"]):
+            for v in (0, 0.0, "", False, "0"):
+                cases.append(("cp2k_data", {"lines": sec, "data": [[k, v] for k in ks], "new": False}))
+    for v in (0, 0.0, "", False, "0"):
+        cases.append(("cp2k_data", {"lines": [], "data": [["A", v], ["B", "1"]], "new": True}))
     # I. CP2K trees (nested / repeated sections, comments, blank lines, mixed case)
     fixed_tree = ("&GLOBAL\n  PROJECT x\n&END GLOBAL\n&MOTION\n  &MD\n    STEPS 10\n  &END MD\n&END MOTION\n&FORCE_EVAL\n &SUBSYS\n  &KIND H\n    MASS 1\n  &END KIND\n"
                   "  &KIND O\n    MASS 16\n  &END KIND\n &END SUBSYS\n&END FORCE_EVAL\n")
@@ -1415,6 +1461,9 @@ def generate(rng, tier):
             for r in range(3):
                 for ks in itertools.combinations(LMP_VARS[:3], r):
                     cases.append(("lammps_in", {"text": "".join(t), "settings": [[kk, "7"] for kk in ks]}))
+                    if ks and k <= 1:
+                        for v in (0, 0.0, "0"):
+                            cases.append(("lammps_in", {"text": "".join(t), "settings": [[kk, v] for kk in ks]}))
     for _ in range(300 if q else 8000):
         cases.append(("lammps_in", gen_lammps_in(rng)))
     return cases
@@ -1493,7 +1542,8 @@ def run(ctx):
                        "implementation's result; distinct by (kind, spec); non-trivial = at least one model comparison was made. Exhaustive small scope: every atom count 1-20 (2-20 lammpstrj), "
                        "every boundary magnitude of the format width in every column, every frame index of 1-4 frame files (and one beyond), all 24 id orders of four atoms, every byte in every "
                        "position for swap_integer, every truncation point of a TRR frame in the four (byte order x precision) variants, every mdp template of <= 2 lines over an 8-line alphabet "
-                       "(with and without final newline) x every subset of 3 keys, every CP2K section of <= 2-3 lines over a 6-line alphabet x dicts over 3 keys (incl. None values, all key orders), "
+                       "(with and without final newline) x every subset of 3 keys, the same templates (<= 1 line quick, <= 2 lines thorough) x every non-empty subset x every falsy value "
+                       "(0, 0.0, '', None, False) and zero-like string ('0', '0.0', ' '), 2-line templates with a falsy value mixed with a non-zero one, the engine's own zero requests on a grompp-like template, every CP2K section of <= 2-3 lines over a 6-line alphabet x dicts over 3 keys (incl. None values, all key orders), "
                        "every LAMMPS template of <= 2 lines over 5 lines x variable subsets; seeded random beyond (values up to 1e15, random mdp/CP2K/LAMMPS grammars).")
     ctx.cov["correspondence"] = {"cases": len(results), "model_requests": nreq, "disagreeing_cases": ncorr, "oracle_failures": sum(rep_o.values()), "oracle_failures_by_kind": rep_o}
     ctx.cov["trusted_base"] += ["extraction: ExtrOcamlBasic only; ocaml/util.ml + ocaml/c19_driver.ml",
